@@ -175,6 +175,22 @@ def C05_blocking_views_bounds_statement : Prop :=
 theorem C05_blocking_views_bounds : C05_blocking_views_bounds_statement :=
   fun tb v w => ⟨addBlockingTrains_safe tb v w, addAllBlockingTrains_safe tb v w, concatViews_safe tb v w⟩
 
+/-- ALL arguments: whenever one of the three functions returns, the old `train_idxs_blocking` buffer is a
+    prefix of the new one — the sentinel slot that `add_blocking_trains` overwrites (and the entries it
+    pushes) lie beyond the old content, which is never disturbed. -/
+def C05_blocking_views_preserve_statement : Prop :=
+  ∀ (tb : List Nat) (v w : View) (out : List Nat) (r : View),
+    (addBlockingTrains tb v w = .ok (out, r) → out.take tb.length = tb ∧ r = (v.1, out.length)) ∧
+    (addAllBlockingTrains tb v w = .ok (out, r) → out.take tb.length = tb) ∧
+    (concatViews tb v w = .ok (out, r) → out.take tb.length = tb)
+
+theorem C05_blocking_views_preserve : C05_blocking_views_preserve_statement := by
+  intro tb v w out r
+  refine ⟨fun h => ?_, fun h => (addAllBlockingTrains_prefix tb v w out r h).1,
+    fun h => (concatViews_prefix tb v w out r h).1⟩
+  obtain ⟨h1, _, h3⟩ := addBlockingTrains_prefix tb v w out r h
+  exact ⟨h1, h3⟩
+
 /-- `add_blocking_trains` when its `assert!`s pass and the add view lies inside the buffer: old buffer kept
     as a prefix (no sentinel left behind), appended part = the trains of the add view missing from the base
     view, returned view = `[base.begin, new length)`. -/
